@@ -479,6 +479,88 @@ def c05(ctx):
                     "PROT_NONE page in process-isolated children, on a debug-assertions build and on a release build, and all hooked loads are checked against the slices")
 
 
+def c14(ctx):
+    """No panic / abort / overflow inside the documented domain; the documented packed-pair panic exactly when documented."""
+    q = ctx.quick
+    binp = C.build_harness()   # dev profile: debug-assertions and overflow-checks on, for the crate under test too
+    ops = {"find", "rfind", "count"}
+    gs = [("g4", "MC_GenericMemchr", dict(VB=4, MinLen=4, MaxLen=24 if q else 40, DenseMax=8, Ops=ops, NNs={1, 2}, Bases=set(range(4)), Families={"sparse", "dense"}, Emit=True), GEN_INV, 3),
+          ("g32", "MC_GenericMemchr", dict(VB=32, MinLen=32, MaxLen=140 if q else 300, DenseMax=31, Ops=ops, NNs={1, 2}, Bases={0, 31}, Families={"single"}, Emit=True), GEN_INV, 3)]
+    ss = [("s8", "MC_Swar", dict(WB=8, MaxLen=24 if q else 40, DenseMax=8, Ops=ops, NNs={1, 2}, Families={"sparse", "dense"}, Emit=True), SWAR_INV, 3)]
+    its = [("it", "MemchrIter", dict(MinLen=0, MaxLen=7 if q else 8, ExtraNones=3, Emit=True), ITER_INV, 3)]
+    ps = pp_shards(ctx, small=True)
+    ie = [("ie", "MC_IsEqual", dict(MaxLen=6, LongLen=40, Emit=True), IE_INV, 3)]
+    pr = [("pairL", "MC_Pair", sub(K_PAIR, PAIRCAP=255, Alpha={0, 1}, MaxN=0, Ranks={0, 1, 2}, LongLens={254, 255, 256, 257, 300, 600}, Emit=True), PAIR_INV, 3),
+          ("pair3", "MC_Pair", sub(K_PAIR, Alpha={0, 1, 2}, MaxN=5, Ranks={0, 1, 2}, LongLens=set(), Emit=True), PAIR_INV, 3)]
+    tw = [("tw", "MC_TwoWay", sub(K_TW, Alpha={0, 1}, MinN=1, MaxN=5, MaxH=8 if q else 10, Emit=False), TW_INV, 4)]
+    mm = memmem_shards(ctx, ["find", "rfind", "iter", "riter"], 5, 6 if q else 8, ranks=(0, 2))
+    os_ = oracle_shards(ctx)
+    res = run_shards(ctx, gs + ss + its + ps + ie + pr + tw + mm + os_, timeout=3000)
+    classes = {"panic"}
+    gvec, gn = vec_of(ctx, res, gs, "generic.ndjson")
+    svec, sn = vec_of(ctx, res, ss, "swar.ndjson")
+    ivec, inn = vec_of(ctx, res, its, "iter.ndjson")
+    pvec, pn = vec_of(ctx, res, ps, "pp.ndjson")
+    rvec, rn = vec_of(ctx, res, pr, "pair.ndjson")
+    mvec, mn = vec_of(ctx, res, os_, "mm.ndjson")
+    ctx.traces += gn + sn + inn + pn + rn + mn + res["ie"]["vectors"]
+    ctx.nontrivial += gn + sn + inn + pn + mn
+    replay_cmd(ctx, binp, "replay-generic", gvec, "generic", classes, extra=["--variants", 1, "--stretches", 3])
+    replay_cmd(ctx, binp, "replay-generic", svec, "swar", classes, extra=["--no-scaled", "--variants", 1, "--stretches", 3])
+    replay_cmd(ctx, binp, "replay-iter", ivec, "iter", classes, extra=["--variants", 1, "--stretches", 3])
+    replay_cmd(ctx, binp, "replay-pp", pvec, "pp", classes)
+    replay_cmd(ctx, binp, "replay-pair", rvec, "pair", classes)
+    replay_cmd(ctx, binp, "replay-iseq", res["ie"]["vec_path"], "iseq", classes)
+    mm_replay(ctx, binp, mvec, "all", classes, 4 if q else 8)
+    ctx.evaluations += sum_exec(ctx, ["_exec"])
+    return C.finish(ctx, "model_checking",
+                    "model: every L-model carries an explicit `bad`/`panic` flag for index arithmetic that would underflow, slice indices out of range and failed (debug_)assertions; "
+                    "NoBad / NoUnderflow / NoPanic are invariants over all enumerations, and for the packed-pair finders `panic <=> |h| < min_haystack_len` is the invariant; "
+                    "code: all vectors of the byte-search, iterator, substring (incl. cfg/objects groups), packed-pair, pair-selection and is_equal models are executed in a build "
+                    "with debug assertions and overflow checks (for the crate under test too), every call under catch_unwind; scaled packed-pair vectors assert the documented "
+                    "panic exactly below min_haystack_len")
+
+
+def c13(ctx):
+    q = ctx.quick
+    # design level: the cost-annotated L-models obey an explicit linear bound on every input of the bounded domains
+    tw = [("tw", "MC_TwoWay", sub(K_TW, Alpha={0, 1}, MinN=1, MaxN=5, MaxH=9 if q else 10, Emit=False), TW_INV, 4),
+          ("tw3", "MC_TwoWay", sub(K_TW, MODK=3, Alpha={0, 1, 2}, MinN=1, MaxN=3, MaxH=6 if q else 7, Emit=False), TW_INV, 4)]
+    mm = memmem_shards(ctx, ["find", "iter"], 5, 7 if q else 9, ranks=(0, 2))
+    ps = pp_shards(ctx, emit=False, small=True)
+    res = run_shards(ctx, tw + mm + ps, timeout=3000)
+    # code level: deterministic step counters on adversarial families at geometrically growing sizes
+    binp = C.build_harness(profile="release")
+    nrec = 0
+    for force in ("avx2", "sse2", "fallback"):
+        tr = os.path.join(ctx.dir, "cost_%s.ndjson" % force)
+        rep, rc, err = C.run_harness(ctx, binp, ["record-cost", "--trace", tr, "--max-log2", 18 if q else 22, "--force", force], "rec_" + force)
+        if rep is None:
+            raise ToolError("recorder failed rc=%s: %s" % (rc, err[-1500:]))
+        n, viol, summ = C.validate_trace(ctx, "Trace_Cost", tr, dict(CMUL=16, CADD=4096), "cost_" + force)
+        nrec += n
+        for s_ in summ:
+            ctx.add_counters({"max_work_per_100_bytes@%s" % force: 0})
+            ctx.counters["max_work_per_100_bytes@%s" % force] = max(ctx.counters.get("max_work_per_100_bytes@%s" % force, 0), s_[3])
+        for (pp, tup) in viol:
+            recd = C.record_at(pp, tup[1])
+            ctx.violation("cost:%s:%s:%s" % (force, tup[2], tup[3]),
+                          "%s on family '%s' (needle %d, haystack %d bytes, prefilter=%s, %s): %d elementary steps exceed the linear bound %d" % (
+                              tup[3], tup[2], recd["nlen"], recd["hlen"], recd["prefilter"], force, tup[4], tup[5]), {"record": recd})
+        if n:
+            ctx.sample({"from": "cost trace", "case": C.record_at(tr, 1 + n // 2)})
+    ctx.evaluations += nrec
+    ctx.nontrivial += nrec
+    ctx.assumptions.append("an asymptotic statement is decided only up to the explored sizes (haystacks <= 2^%d bytes) and families; see DESIGN.md section 8" % (18 if q else 22))
+    return C.finish(ctx, "model_checking",
+                    "design: TLC checks `work <= A*(|h|+|n|)+B` as an invariant of the cost-annotated L-models (Two-Way search and preprocessing, packed pair chunks and "
+                    "confirmations, Rabin-Karp hashes, the whole find_iter traversal with the adaptive prefilter) on every input of the bounded domains; code: the hooks' deterministic "
+                    "step counters are recorded on adversarial families (a^(m-1)b in a^n, a^m in (a^(m-1)b)^r, unbalanced factorisations with the prefilter off or inert, periodic "
+                    "needles in near-period haystacks, rare bytes everywhere, Fibonacci/Thue-Morse, candidate-free prefix + dense false candidates, random factors) with needle "
+                    "2..4096 and haystack 2^8..2^18 (quick) / 2^22 (thorough) under each dispatch level; TLC (Trace_Cost) validates work <= 16*(|h|+|n|)+4096 for every record; "
+                    "distinct = records")
+
+
 def c01(ctx):
     byte_search(ctx, ["find"], {"result", "panic"})
     return C.finish(ctx, "model_checking", RULE_BYTES)
@@ -495,7 +577,7 @@ def c07(ctx):
     return C.finish(ctx, "model_checking", RULE_BYTES)
 
 
-RECIPES = {"C01": c01, "C02": c02, "C03": c03, "C04": c04, "C05": c05, "C06": c06, "C07": c07, "C08": c08, "C10": c10, "C11": c11, "C12": c12, "C16": c16, "C17": c17, "C18": c18, "C19": c19}
+RECIPES = {"C01": c01, "C02": c02, "C03": c03, "C04": c04, "C05": c05, "C06": c06, "C07": c07, "C08": c08, "C10": c10, "C11": c11, "C12": c12, "C13": c13, "C14": c14, "C16": c16, "C17": c17, "C18": c18, "C19": c19}
 
 
 def run(prop, tier, seed):
